@@ -47,6 +47,12 @@ func hostileSuite() []modelSpec {
 	add("emit-context: block comment", "predicate containing a string with */", func(m *model) *Obj {
 		return m.seq(m.predicate("__pred0() && \"*/\" != \"\""), m.opaqueChild(true, false))
 	})
+	add("runtime variables in user code", "action reading text and buffer in a grammar without captures", func(m *model) *Obj {
+		return m.seq(m.char("a"), m.action("_, _ = text, buffer"), m.opaqueChild(true, false))
+	})
+	add("runtime variables in user code", "predicate reading buffer and position", func(m *model) *Obj {
+		return m.seq(m.predicate("len(buffer) > int(position)"), m.opaqueChild(true, false))
+	})
 	add("emit-context: statement", "predicate with a line comment", func(m *model) *Obj {
 		return m.seq(m.predicate("__pred0() // trailing\n"), m.opaqueChild(true, false))
 	})
@@ -105,7 +111,7 @@ func checkC08(c *Check) {
 	}
 	specs := append(append(tokenSuite(), hostileSuite()...), labelSuite()...)
 	if c.Tier == "thorough" {
-		specs = append(specs, thoroughSpecs(c.Seed, 300)...)
+		specs = append(specs, thoroughSpecs(c.Seed, 1200)...)
 	}
 	optSets := []modelOpts{{Ast: true}, {Ast: false}, {Ast: true, Inline: true}, {Ast: false, Inline: true}}
 	rs, probs := runSuite(r, specs, optSets)
